@@ -632,6 +632,7 @@ func init() {
 		Level: "exploration",
 		Rule: "differential against the vendored Prometheus library: case = generated configuration (1-4 jobs; scheme, metrics path, params incl. multi-valued and match[], relabel programs: replace into plain labels / __address__ / __metrics_path__ / __scheme__ / __param_<k> with k inside and outside params, keep/drop, labelmap from meta labels incl. digit-leading names, labeldrop, hashmod) + generated target groups (ports present/absent, IPv6 literals, group vs target labels, __param_/__scheme__/__metrics_path__ from discovery, duplicates, dropped targets); " +
 			"reference = config.Load + scrape.TargetsFromGroup on the original; kvass = real TargetsDiscovery -> random split over 1-3 real sidecars (JSON API) -> generated file -> config.Load -> TargetsFromGroup -> request through the real Proxy.ServeHTTP -> URL observed at JobInfo.Cli; oracle = per job the sets of (final labels, scheme://host/path ? sorted query) are equal; then the configuration is reloaded with edited relabel programs, metrics path and scheme (one job possibly removed) on the SAME discovery and sidecar objects, the groups are re-sent, and the comparison is repeated; the coordinator side is scrape manager + explorer + discovery sharing one ConfigInfo as in cmd/kvass/coordinator.go: after each of the two configurations the explorer probes every active target (stub exporter) and the same groups are re-sent without a reload, then compared again (4 phases); " +
+			"metrics paths (job setting and discovery-provided label) include empty, dot and dot-dot segments and a trailing slash; " +
 			"non-trivial = the reference has at least one target; distinct = hash of configuration text and groups",
 		Assumptions: []string{
 			"the generator does not emit relabel programs that delete job or instance, params named _hash/_jobName/_scheme, or values needing YAML block scalars",
